@@ -194,6 +194,17 @@ struct SecState {
 
 pub struct Built { pub rows: Vec<HRow>, pub opening: Vec<(String, String, String)>, pub tags: Vec<String> }
 
+/// What "sell everything" means for a generated history: the exact holding when it can be typed with
+/// at most 10 decimals, otherwise the holding truncated to 4 decimals (so no dust position of 1e-10
+/// shares is ever created; such dust would carry arbitrarily large per-share costs and make the
+/// 1e-9 comparison ill-conditioned).
+pub fn sellable(bal: &Rat) -> Rat { if bal.to_decimal_string(10).is_some() { bal.clone() } else { bal.floor_dp(4) } }
+/// Keep the residue of a sale either zero or at least 1e-6 shares.
+pub fn no_dust(bal: &Rat, q: Rat, all: &Rat) -> Rat {
+    let rest = bal.sub(&q);
+    if rest.is_pos() && rest.lt(&Rat::ratio(1, 1_000_000)) { all.clone() } else { q }
+}
+
 fn dp_string(r: &Rat, dp: u32) -> String { r.floor_dp(dp).to_decimal_string(dp).unwrap() }
 
 /// Interpret intents into a valid history (chronological construction, optional admissible shuffle).
@@ -243,7 +254,7 @@ pub fn build_history(intents: &[Intent], p: &GenParams, head: &Intent) -> Built 
         if d < cur_date { d = cur_date; }
         let mut kind = wpick(it.kind, &[(6u32, Act::Buy), (6, Act::Sell), (if p.roc { 1 } else { 0 }, Act::Roc), (if p.splits { 2 } else { 0 }, Act::Split), (if p.manual_sfla { 1 } else { 0 }, Act::Sfla)]);
         let a = s.afs.get(&af_id).cloned().unwrap_or_default();
-        let hold10 = a.bal.floor_dp(10);
+        let hold10 = sellable(&a.bal);
         if kind == Act::Sell && !hold10.is_pos() { kind = Act::Buy; }
         if (kind == Act::Roc || kind == Act::Sfla) && reg { kind = Act::Buy; }
         if kind == Act::Roc && !a.bal.is_pos() && it.flag % 3 != 0 { kind = Act::Buy; }
@@ -276,7 +287,7 @@ pub fn build_history(intents: &[Intent], p: &GenParams, head: &Intent) -> Built 
         let mrate = fx();
         match kind {
             Act::Buy => {
-                let qty = if p.tame_numbers { pick(it.qty, &["10", "1", "6", "30", "100", "12", "60", "2.5"]) } else { pick(it.qty, &["10", "1", "3", "7", "100", "25", "0.5", "3.3333333333", "0.1428571429", "12.3456", "1000", "0.0001", "999999", "33"]) };
+                let qty = if p.tame_numbers { pick(it.qty, &["10", "1", "6", "30", "100", "12", "60", "2.5"]) } else { pick(it.qty, &["10", "1", "3", "7", "100", "25", "0.5", "3.3333333333", "0.1428571429", "12.3456", "1000", "0.0001", "50000", "33"]) };
                 let price = if p.tame_numbers { pick(it.price, &["10", "1", "2.5", "100", "0.6", "36"]) } else { pick(it.price, &["10", "1", "0.01", "3.3333333333", "19.99", "100", "0", "0.0001", "1234.5678", "7"]) };
                 r.shares = qty.to_string(); r.price = price.to_string();
             }
@@ -290,7 +301,7 @@ pub fn build_history(intents: &[Intent], p: &GenParams, head: &Intent) -> Built 
                     4 => Rat::parse("0.0001").unwrap().min(&hold10),
                     _ => a.bal.mul(&Rat::ratio(1 + (it.qty % 97) as i64, 100)).floor_dp(if p.tame_numbers { 0 } else { 6 }).min(&hold10),
                 };
-                let q = if q.is_pos() { q } else { hold10.clone() };
+                let q = no_dust(&a.bal, if q.is_pos() { q } else { hold10.clone() }, &hold10);
                 r.shares = q.to_decimal_string(10).unwrap();
                 // price relative to cost per share, in the row's currency
                 let per_share = if reg || !a.bal.is_pos() { Rat::from_i64(10) } else { a.acb.div(&a.bal).div(&mrate) };
@@ -444,12 +455,12 @@ pub fn build_scenario(head: &Intent, pre: &[Intent], events: &[Intent], p: &Scen
             1 => Act::Sell,
             _ => if p.cell.is_some() && e.seq == 0 { Act::Buy } else { wpick(it.kind, &[(6u32, Act::Buy), (4, Act::Sell), (if p.splits { 2 } else { 0 }, Act::Split), (if p.roc { 1 } else { 0 }, Act::Roc)]) },
         };
-        if e.kind == 1 && (reg || !st.get(&af_id).map(|a| a.bal.floor_dp(10).is_pos()).unwrap_or(false)) {
+        if e.kind == 1 && (reg || !st.get(&af_id).map(|a| sellable(&a.bal).is_pos()).unwrap_or(false)) {
             // anchor must be sold by a non-registered holder: pick the first one that holds shares
-            if let Some((id, _)) = st.iter().find(|(id, a)| !id.ends_with("(R)") && a.bal.floor_dp(10).is_pos()) { af_id = id.clone(); reg = false; af_sp = afs.iter().find(|x| affiliate_id(x).0 == af_id).map(|x| x.to_string()).unwrap_or_default(); } else { kind = Act::Buy; }
+            if let Some((id, _)) = st.iter().find(|(id, a)| !id.ends_with("(R)") && sellable(&a.bal).is_pos()) { af_id = id.clone(); reg = false; af_sp = afs.iter().find(|x| affiliate_id(x).0 == af_id).map(|x| x.to_string()).unwrap_or_default(); } else { kind = Act::Buy; }
         }
         let a = st.get(&af_id).cloned().unwrap_or_default();
-        let hold10 = a.bal.floor_dp(10);
+        let hold10 = sellable(&a.bal);
         if kind == Act::Sell && !hold10.is_pos() { kind = Act::Buy; }
         if kind == Act::Roc && (reg || !a.bal.is_pos()) { kind = Act::Buy; }
         let lag = wpick(it.settle, &[(3u32, 0i64), (2, 1), (3, 2)]);
@@ -474,7 +485,7 @@ pub fn build_scenario(head: &Intent, pre: &[Intent], events: &[Intent], p: &Scen
                     3 => Rat::one().min(&hold10),
                     _ => a.bal.mul(&Rat::ratio(1 + (it.qty % 97) as i64, 100)).floor_dp(dp).min(&hold10),
                 };
-                let q = if q.is_pos() { q } else { hold10.clone() };
+                let q = no_dust(&a.bal, if q.is_pos() { q } else { hold10.clone() }, &hold10);
                 r.shares = q.to_decimal_string(10).unwrap();
                 let per_share = if reg || !a.bal.is_pos() { Rat::from_i64(10) } else { a.acb.div(&a.bal).div(&mrate) };
                 let rel = if e.kind == 1 { wpick(it.rel, &[(8u32, 0u8), (2, 1), (1, 3)]) } else { wpick(it.rel, &[(5u32, 0u8), (1, 1), (3, 3)]) };
